@@ -152,7 +152,7 @@ def rand_crystal(rng, **kw):
 
 
 NAMED = ('sc', 'fcc', 'bcc', 'diamond', 'hcp', 'square', 'tria', 'honey', 'lieb', 'kagome', 'omega', 'rumpled',
-         'dtria', 'b2', 'l12', 'tet', 'rect', 'tric', 'mono', 'p4m', 'p2', 'mono2', 'dhcp', 'omega_perm')
+         'dtria', 'b2', 'l12', 'tet', 'rect', 'tric', 'mono', 'p4m', 'p2', 'mono2', 'dhcp', 'omega_perm', 'rumpled_spec', 'dtria_spec')
 
 
 def named(name):
@@ -182,6 +182,13 @@ def named(name):
     if name == 'dhcp':  # double hcp, basis listed in stacking order A B A C: the two Wyckoff sets have interleaved site indices
         return C(np.array([[.5, .5, 0.], [-np.sqrt(.75), np.sqrt(.75), 0.], [0., 0., 2 * np.sqrt(8. / 3.)]]),
                  [np.array([0., 0., 0.]), np.array([1 / 3, 2 / 3, .25]), np.array([0., 0., .5]), np.array([2 / 3, 1 / 3, .75])]), 0, 1.01
+    # compounds whose mobile sublattice has polar sites (origin states) and whose other species only watch (atoms per cell != sites)
+    if name == 'rumpled_spec':
+        return C(hexl, [[np.zeros(3), np.array([1 / 3, 2 / 3, 0.55]), np.array([2 / 3, 1 / 3, 0.45])],
+                        [np.array([0., 0., 0.5])], [np.array([1 / 3, 2 / 3, 0.05]), np.array([2 / 3, 1 / 3, 0.95])]]), 0, 0.7
+    if name == 'dtria_spec':
+        return C(np.array([[1., 0.], [0., np.sqrt(3.)]]), [[np.zeros(2), np.array([0.5, 0.4])], [np.array([0., 0.7])],
+                                                          [np.array([0.5, 0.85]), np.array([0.5, 0.1])]]), 0, 1.2
     if name == 'omega_perm':  # omega with the three-fold site listed in the middle: sitelist [[1], [0, 2]]
         return C(hexl, [np.array([1 / 3, 2 / 3, 0.5]), np.zeros(3), np.array([2 / 3, 1 / 3, 0.5])]), 0, 0.7
     # low-symmetry crystals (point groups with an invariant axial vector: tensors need not be isotropic or even diagonal)
